@@ -17,7 +17,7 @@ RULE = ("mazes: real gen_dfs / gen_wilson (spanning trees) and gen_dfs_percolati
         "'( ) , digits space tab newline < > - ; a' (rarely \\r \\v \\f \\x1c-\\x1f) and near-miss coordinate strings for the scanner functions; random token lists for "
         "tokens_between/list_split; single-token mutations of valid token lists for from_tokens. non-trivial = a maze with at least one "
         "connection (all are) / a string containing a parenthesis or comma; distinct = distinct (flavour, mode, kind, size, edges, "
-        "endpoints, path, list-or-string) resp. distinct string; later additions: every maze parsed through all three classes, shared-lattice groups and mode reassignment on a live tokenizer, the size-limited legacy tokenizer and MazeDatasetCollection (members incl. empty ones) at dataset level")
+        "endpoints, path, list-or-string) resp. distinct string; later additions: every maze parsed through all three classes, shared-lattice groups and mode reassignment on a live tokenizer, the size-limited legacy tokenizer and MazeDatasetCollection (members incl. empty ones) at dataset level, token lists emptied by the caller between calls")
 ASSUMPTIONS = [
     "ASCII input: Python's isdigit/isspace/\\S are Unicode-aware, the model's are their ASCII restrictions",
     "grid side <= 127 (connection_list_to_adj_list stores coordinates as int8); property scope is 2..20",
